@@ -176,7 +176,26 @@ theorem closeContainer_ok (p : PState) (hg : Good p) (k : Ctx) (t : List Ctx) (h
 
 
 theorem cAt_zero (b : Bytes) : ∃ x, cAt b 0 = some x := by
-  cases b <;> simp [cAt]
+  cases b <;> simp [cAt, leadingZeroBad]
+
+theorem leadingZeroBad_some (b : Bytes) (hne : b ≠ [45]) : ∃ bad, leadingZeroBad b = some bad := by
+  match b, hne with
+  | [], _ => exact ⟨false, by simp [leadingZeroBad, cAt]⟩
+  | [x], hne =>
+    have hx : x ≠ 45 := by intro h; simp [h] at hne
+    by_cases h48 : x = 48
+    · exact ⟨false, by simp [leadingZeroBad, cAt, h48]⟩
+    · exact ⟨false, by simp [leadingZeroBad, cAt, hx, h48]⟩
+  | x :: y :: t, _ =>
+    by_cases h45 : x = 45
+    · by_cases hy : y = 48
+      · cases t with
+        | nil => exact ⟨false, by simp [leadingZeroBad, cAt, h45, hy]⟩
+        | cons z t' => exact ⟨decide (z ≠ 0), by simp [leadingZeroBad, cAt, h45, hy]⟩
+      · exact ⟨false, by simp [leadingZeroBad, cAt, h45, hy]⟩
+    · by_cases h48 : x = 48
+      · exact ⟨decide (y ≠ 0), by simp [leadingZeroBad, cAt, h48]⟩
+      · exact ⟨false, by simp [leadingZeroBad, cAt, h45, h48]⟩
 
 theorem intEnd_ok (p : PState) (hg : Good p) (hn : needsProp p.state p.prev = true) : Post p (intEnd p) := by
   have hb := shape_baseOK hg.shape
@@ -184,24 +203,17 @@ theorem intEnd_ok (p : PState) (hg : Good p) (hn : needsProp p.state p.prev = tr
   simp only []
   split
   · rename_i hne
-    have key : ∀ v : JV, Post p (do let p1 ← scalar p v; some (Flag.again, p1)) := by
-      intro v
+    obtain ⟨bad, hbad⟩ := leadingZeroBad_some (buf p) hne
+    rw [hbad]
+    simp only [Option.bind_some]
+    cases bad with
+    | true => simp only [if_true]; exact post_errRet _ hb
+    | false =>
+      simp only [Bool.false_eq_true, if_false]
+      generalize (if (buf p).length > 9 then JV.num (buf p) else JV.int (myatoiz (buf p))) = v
       obtain ⟨q, hq, hgq, hi, ha, _⟩ := scalar_ok p v hg hn
-      simp [hq]
+      rw [hq]
       exact post_again_good _ q hgq hi ha
-    generalize hbb : buf p = b at *
-    match b, hne with
-    | [], _ =>
-      simp [cAt]
-      exact key _
-    | [x], hne =>
-      have hx : x ≠ 45 := by intro h; simp [h] at hne
-      simp [cAt, hx]
-      repeat' split
-      all_goals first | exact key _ | exact post_errRet _ hb
-    | x :: y :: t, _ =>
-      cases t <;> simp [cAt] <;> repeat' split
-      all_goals first | exact key _ | exact post_errRet _ hb
   · exact post_errRet _ hb
 
 
